@@ -452,4 +452,68 @@ func ruleRecoverability(c *Ctx, r *Report) {
 		r.Check(ok, rule2, short(fn), c.pos(fn.Pos()), "queued records are replayed (HandleQueuedPackets) after the read keys are installed and before the protected message is awaited", "after installing the read keys the queued next-epoch records are not replayed before waiting for the protected message (a Finished that arrived early is never processed)")
 	}
 	r.Floor(rule2, n, 2)
+
+	// DTLS 1.3: a partially acknowledged message stays in the retransmission list
+	const rule3 = "partial-ack-keeps-message"
+	if fn := c.need(r, rule3, "(*"+pkgHS+".fsm13).applyACKProgress"); fn != nil {
+		r.Sites += len(fn.Blocks)
+		loops := naturalLoops(fn)
+		var inner *natLoop
+		for _, l := range loops {
+			if inner == nil || len(l.blocks) < len(inner.blocks) {
+				inner = l
+			}
+		}
+		var keeps []ssa.Instruction
+		for _, ci := range callsIn(fn, nameIs("builtin:append")) {
+			call := ci.(*ssa.Call)
+			if inner != nil && inner.blocks[call.Block()] && typeShort(call.Type()) == "[]*internal/flight.Packet" {
+				keeps = append(keeps, call)
+			}
+		}
+		if inner == nil || len(keeps) == 0 {
+			r.Bad(rule3, short(fn), c.pos(fn.Pos()), "no loop that re-collects the packets still to be retransmitted")
+		} else {
+			isKeep := map[ssa.Instruction]bool{}
+			for _, k := range keeps {
+				isKeep[k] = true
+			}
+			w := &Walk{Fn: fn, Assume: assumeAll(atomAssume{mLoad(pkgHS+".ACKMessageProgress", "Complete"), vBool(false)},
+				atomAssume{func(v ssa.Value) bool { _, f, _, ok := fieldLoad(v); return ok && f == "Complete" }, vBool(false)})}
+			dropped := false
+			first := true
+			var hdrFirst ssa.Instruction
+			for _, x := range inner.header.Instrs {
+				if _, isPhi := x.(*ssa.Phi); !isPhi {
+					hdrFirst = x
+					break
+				}
+			}
+			w.Visit = func(in ssa.Instruction, _ map[*ssa.Phi]Val) bool {
+				if isKeep[in] {
+					return false
+				}
+				if in == hdrFirst {
+					if !first {
+						dropped = true // next iteration reached without keeping the packet
+						return false
+					}
+					first = false
+				}
+				return true
+			}
+			// start at the loop body: the successor of the header that is inside the loop
+			var body *ssa.BasicBlock
+			for _, sc := range inner.header.Succs {
+				if inner.blocks[sc] && sc != inner.header {
+					body = sc
+				}
+			}
+			if body != nil {
+				first = false
+				w.FromEdge(inner.header, body)
+			}
+			r.Check(body != nil && !dropped, rule3, short(fn), c.pos(fn.Pos()), "a message that is not completely acknowledged is kept for retransmission on every path", "a partially acknowledged message can be dropped from the retransmission list: its missing fragments are never sent again")
+		}
+	}
 }
